@@ -79,13 +79,13 @@ def excluded_by_known(name, tag, pc, goal, timeout_ms):
         if not fnmatch.fnmatch(name, k["obligation"]): continue
         if k.get("path") and not fnmatch.fnmatch(tag, k["path"]): continue
         pred = k.get("identified_by_smt")
-        if pred in (None, "always"): return k
+        if pred in (None, "always"): return dict(k, _restricted=False)
         env = {"z3": z3, "And": z3.And, "Or": z3.Or, "Not": z3.Not, "Implies": z3.Implies}
         env.update(_consts(list(pc) + [goal]))
         try: P = eval(pred, env)
         except Exception: continue
         v = smt.prove(list(pc) + [z3.Not(toz3(P))], goal, timeout_ms)
-        if v.status == "proved": return k
+        if v.status == "proved": return dict(k, _restricted=True)
     return None
 
 def verify(interp, target, timeout_ms=10000, verbose=False, only=None):
@@ -97,7 +97,7 @@ def verify(interp, target, timeout_ms=10000, verbose=False, only=None):
         r = Result(f"{target}.{name}", v, tag, dict(meta or {}))
         if v.status != "proved" and "CANARY" not in name:
             k = excluded_by_known(r.name, tag, pc, toz3(goal), timeout_ms)
-            if k is not None: r.meta["known_finding"] = k.get("id") or k.get("what_fails")
+            if k is not None: r.meta["known_finding"] = k.get("id") or k.get("what_fails"); r.meta["known_restricted"] = k["_restricted"]
         if v.status != "proved" or len(results) < 3:
             try: r.meta["smt2"] = _smt2(pc, goal)
             except Exception: pass
@@ -148,7 +148,7 @@ def verify(interp, target, timeout_ms=10000, verbose=False, only=None):
                   v = smt.Verdict("refuted", "z3", 0.0, model=_model(pc), detail=f"unexpected {pr.exc.name}: {pr.msg}")
                   r = Result(f"{target}.safe.no_{pr.exc.name}", v, tag, {"msg": str(pr.msg)})
                   k = excluded_by_known(r.name, tag, pc, z3.BoolVal(False), timeout_ms)
-                  if k is not None: r.meta["known_finding"] = k.get("id") or k.get("what_fails")
+                  if k is not None: r.meta["known_finding"] = k.get("id") or k.get("what_fails"); r.meta["known_restricted"] = k["_restricted"]
                   results.append(r)
               continue
           cx = Ctx(ctx, result=outcome[1], old=old)
